@@ -159,3 +159,57 @@ Proof.
   unfold vcheck_program in Hc. pose proof (flat_map_nil' _ _ _ _ Hc _ Hin) as Hs. cbn in Hs. apply map_eq_nil in Hs.
   destruct (vchk_sound s t2 fl E2 [] Hs n Hw) as [g' [Hg' [[]|HZ]]]. rewrite Hn in Hg'. inversion Hg'; subst g'. contradiction.
 Qed.
+
+(* ------------------------------------------------------------------ frame: what a run must NOT change *)
+Fixpoint sets_of (s : vsk) : list string :=
+  match s with
+  | VSet _ g => [g]
+  | VFn b | VGuard _ b | VLoop b => sets_of b
+  | VSeq a b | VAlt a b => sets_of a ++ sets_of b
+  | _ => []
+  end.
+
+Lemma set_flag_other : forall nz g x, x <> g -> set_flag nz g x = nz x.
+Proof. intros nz g x H. unfold set_flag. destruct (String.eqb_spec x g); [contradiction | reflexivity]. Qed.
+
+(* a run leaves every flag it has no store for exactly as it was (in particular it never clears a flag) *)
+Theorem vrun_frame : forall nz s t fl nz', vrun nz s t fl nz' -> forall x, ~ In x (sets_of s) -> nz' x = nz x.
+Proof.
+  intros nz s t fl nz' H. induction H; intros x Hx; cbn [sets_of] in Hx; try reflexivity.
+  - apply set_flag_other. intros ->. apply Hx. left; reflexivity.
+  - apply IHvrun; assumption.
+  - apply IHvrun; assumption.
+  - rewrite IHvrun2 by (intros Hin; apply Hx, in_or_app; right; assumption).
+    apply IHvrun1. intros Hin; apply Hx, in_or_app; left; assumption.
+  - apply IHvrun. intros Hin; apply Hx, in_or_app; left; assumption.
+  - apply IHvrun. intros Hin; apply Hx, in_or_app; left; assumption.
+  - apply IHvrun. intros Hin; apply Hx, in_or_app; right; assumption.
+  - rewrite IHvrun2 by assumption. apply IHvrun1; assumption.
+  - apply IHvrun; assumption.
+Qed.
+
+(* ------------------------------------------------------------------ non-vacuity of warm_after_first_call *)
+Definition info_like : vsk :=
+  VFn (VSeq (VAtomic "f" "VirtMem::info::vm_info_initialized")
+      (VSeq (VGuard "VirtMem::info::vm_info_initialized"
+               (VSeq (VPlain "f" "VirtMem::info::vm_info" true) (VSet "f" "VirtMem::info::vm_info_initialized")))
+      (VSeq (VPlain "f" "VirtMem::info::vm_info" false) VRet))).
+
+(* cold call: the guard is entered, the cache is written, the flag gets set; warm call: no write *)
+Example warm_after_first_call_sat :
+  vcheck_program [("f", info_like)] = [] /\ always_sets "VirtMem::info::vm_info_initialized" info_like = true /\
+  exists t1 nz1 t2 nz2,
+    vrun (fun _ => false) info_like t1 false nz1 /\ In (VWr "VirtMem::info::vm_info") t1 /\
+    vrun nz1 info_like t2 false nz2 /\ ~ In (VWr "VirtMem::info::vm_info") t2.
+Proof.
+  split; [reflexivity|]. split; [reflexivity|].
+  eexists. eexists. eexists. eexists. split; [|split; [|split]].
+  - unfold info_like. eapply VR_fn. eapply VR_seq; [apply VR_atomic|].
+    eapply VR_seq; [eapply VR_guard_enter; [reflexivity|]; eapply VR_seq; [apply VR_plain_w | apply VR_set] |].
+    eapply VR_seq; [apply VR_plain_r | apply VR_ret].
+  - cbn. tauto.
+  - unfold info_like. eapply VR_fn. eapply VR_seq; [apply VR_atomic|].
+    eapply VR_seq; [apply VR_guard_skip; reflexivity|].
+    eapply VR_seq; [apply VR_plain_r | apply VR_ret].
+  - cbn. intros [H|[H|H]]; try discriminate; contradiction.
+Qed.
